@@ -287,6 +287,27 @@ example : (hrun HState.init demoOps).map (fun r => (r.1.s.cells, r.2)) =
      ([(2, 3), (3, 0), (3, 1), (1, 7), (1, 1), (2, 3), (1, 0), (3, 0), (3, 1)], .err .keyError)] := by
   decide
 
+/-- the hypotheses `HInv st` / `Inv s` are met by every state of that history … -/
+example : ∀ r ∈ hrun HState.init demoOps, HInv r.1 := inv_history demoOps
+/-- … e.g. by this interleaved multi-valued dictionary (dict order `0, 1`; pair order `0, 1, 0`) -/
+example : Inv (⟨[(0, [1, 3]), (1, [2])], [(0, 1), (1, 2), (0, 3)]⟩ : OMD Nat Nat) :=
+  (fromPairs_complete [(0, 1), (1, 2), (0, 3)]).1
+/-- a mapping has unique keys (`eq_mapping_iff`, `update_mapping_eq`) -/
+example : (dkeys [(1, 2), (0, 3)]).Nodup := by decide
+/-- key functions induce total preorders (`sorted_sorted`, `sortedvalues_sorted`): by value … -/
+example : (∀ a b : Nat × Nat, decide (a.2 ≤ b.2) = true ∨ decide (b.2 ≤ a.2) = true) ∧
+    (∀ a b c : Nat × Nat, decide (a.2 ≤ b.2) = true → decide (b.2 ≤ c.2) = true → decide (a.2 ≤ c.2) = true) :=
+  ⟨by intro a b; simp only [decide_eq_true_eq]; omega, by intro a b c; simp only [decide_eq_true_eq]; omega⟩
+/-- … and by parity of the value, where distinct values tie -/
+example : (∀ a b : Nat, decide (a % 2 ≤ b % 2) = true ∨ decide (b % 2 ≤ a % 2) = true) ∧
+    (∀ a b c : Nat, decide (a % 2 ≤ b % 2) = true → decide (b % 2 ≤ c % 2) = true → decide (a % 2 ≤ c % 2) = true) :=
+  ⟨by intro a b; simp only [decide_eq_true_eq]; omega, by intro a b c; simp only [decide_eq_true_eq]; omega⟩
+/-- pairs already in descending value order (`sorted_of_sorted` with `reverse`) -/
+example : ([(0, 3), (1, 2), (1, 0)] : List (Nat × Nat)).Pairwise
+    (fun a b => flipIf true (fun a b : Nat × Nat => decide (a.2 ≤ b.2)) a b = true) := by decide
+/-- a failing operation (`failed_op_changes_nothing`): `del` of an absent key -/
+example : (hstep (⟨OMD.fromPairs [(0, 1)], OMD.empty⟩ : HState Nat Nat) (.delitem 5)).2 = .err .keyError := by decide
+
 example : Spec.keys [(2, 3), (3, 0), (3, 1), (1, 7), (1, 1), (2, 3)] = [2, 3, 1] := by decide
 example : Spec.items [(2, 3), (3, 0), (3, 1), (1, 7), (1, 1), (2, 4)] = [(2, 4), (3, 1), (1, 1)] := by decide
 example : (OMD.fromPairs [(0, 1), (1, 2), (0, 3)] : OMD Nat Nat).eqMapping [(1, 2), (0, 3)] = .ok true := rfl
